@@ -314,7 +314,7 @@ func (g *gen) heapCase() (line string, viol string) {
 			failed = err != nil
 		case x < 10 && shared:
 			ops = append(ops, "(sweep)")
-			state = gojq.VerifDeleteEmpty(state)
+			state = a.VerifDeleteEmpty(state)
 		default:
 			np := 1 + r.Intn(3)
 			var ps []any
